@@ -501,6 +501,8 @@ pub fn off_in(parent: &str, child: &str) -> Option<usize> {
 pub const LEADS: [&str; 13] = ["a", "\u{80}", "\u{7ff}", "\u{800}", "\u{1000}", "\u{c000}", "\u{d7ff}", "\u{e000}", "\u{ffff}", "\u{10000}", "\u{40000}", "\u{fffff}", "\u{10ffff}"];
 /// 耀 (E8), U+FFFD (EF BF BD), Hangul (EA/ED), fullwidth (EF BC ..): 3-byte chars above U+8000
 pub const LEADS_HI3: [&str; 5] = ["\u{8000}", "\u{fffd}", "\u{d55c}", "\u{ff21}", "\u{f000}"];
+/// the two ends of the one-byte class (an `< 0x7F` / `<= 0x7F` slip only shows on DEL)
+pub const ASCII_EDGES: [&str; 2] = ["\u{7f}", "\0"];
 
 // ---------------------------------------------------------------- enumerators
 
@@ -566,6 +568,11 @@ pub fn hostile_indices(len: usize, elem_size: usize) -> Vec<usize> {
         usize::MAX,
         usize::MAX - len,
         (usize::MAX - len).wrapping_add(1),
+        // values that change when truncated to 32 bits
+        u32::MAX as usize,
+        1usize << 32,
+        (1usize << 32) + 1,
+        (1usize << 32) + len,
     ] {
         if !v.contains(&x) {
             v.push(x);
